@@ -5,7 +5,8 @@ Tie : harness streams xform-* (real passes built through yaml.CompilerLoader / h
       Lean driver (`xform …`), byte-identical replies; Go oracle (harness/c15_oracle.go) on every case;
       Lean specification vs Go oracle specification; Lean counterexample witnesses replayed on the real code.
 """
-import collections, json, os, re, sys
+import collections, json, os, re, shutil, sys
+import verifkit.core as core
 from verifkit.core import *
 
 P = "Cog.Xform."
@@ -125,8 +126,19 @@ def main():
     hb, err = build_go("verifharness", "harness", files=HARNESS_BASE + ["c15_*.go"], tag="c15")
     c.oblige("harness builds against the working tree (%s)" % REPO, hb is not None, err)
     c.lean_obligations(ALL_THEOREMS, imports=("Cog.Props.C15", "Cog.Xform.SpecAll", "Cog.Xform.Witness"))
-    if hb is None or not os.path.exists(DRV):
+    # private copy of the driver: other checks relink lean/.lake/build/bin/drv while this one runs
+    mydrv = os.path.join(BIN, "drv-c15-%d" % os.getpid())
+    try:
+        with Lock("lake"):
+            shutil.copy2(DRV, mydrv)
+        core.DRV = mydrv
+    except OSError as e:
+        c.oblige("driver binary available", False, str(e))
+        hb = None
+    if hb is None:
         c.finish("lake build && lake env lean <audit>", "n/a")
+    import atexit
+    atexit.register(lambda: os.path.exists(mydrv) and os.remove(mydrv))
 
     def eval_lines(lines, stream="xform-eval", **kw):
         tmp = os.path.join(WORK, "c15_eval_%d.txt" % os.getpid())
